@@ -860,7 +860,11 @@ def run(chk: Check):
         "Python's binary-operator dispatch (forward method, reflected method) as modelled by python_operator",
         "tensor values are modelled in Z (a commutative ring); binary64 rounding is not modelled",
     ]
+    import time as _time
+    t0 = _time.time()
+    timing = chk.extra.setdefault("timing_s", {})
     chk.coq_props()
+    timing["coq_props"] = round(_time.time() - t0, 1)
     # concrete instances of the theorems' hypotheses and sanity examples of the model
     ok_ex, log_ex = chk.coq_make(["proofs/OperatorsExamples.vo"], timeout=600)
     if not ok_ex:
@@ -888,7 +892,10 @@ def run(chk: Check):
         c["id"] = len(cases)
         cases.append(c)
 
+    timing["coq_total"] = round(_time.time() - t0, 1)
+    t1 = _time.time()
     results = run_harness(chk, cases)
+    timing["harness"] = round(_time.time() - t1, 1)
     by_id = {c["id"]: c for c in cases}
 
     n_viol = 0
@@ -903,9 +910,11 @@ def run(chk: Check):
         if got == "K-C08-1":
             chk.known_finding(
                 "K-C08-1",
-                "operator request refused with NotImplementedError from AppendOutput.next_output "
-                f"(e.g. {c['left'].get('format')} {c['op']} {c['right'].get('format')})",
+                "operator request refused with NotImplementedError raised in AppendOutput.next_output "
+                "(iteration_graph/outputs/_append.py): the kernel generator's known internal refusal, C08",
             )
+            if "K-C08-1-example" not in chk.extra:
+                chk.extra["K-C08-1-example"] = strip_case(c)
         if got == "harness":
             chk.broken.append({"kind": "harness", "case": strip_case(c), "what": problems})
             continue
@@ -924,7 +933,9 @@ def run(chk: Check):
     if n_viol > 5:
         chk.note(f"{n_viol} failing cases in total; the first 5 were written as replays")
 
+    t2 = _time.time()
     bad = correspondence(chk, [c for c in cases if outcome_of[c["id"]] != "harness"], results)
+    timing["correspondence_coqc"] = round(_time.time() - t2, 1)
     chk.count("correspondence_compared", len(cases))
     chk.count("correspondence_disagreements", len(bad))
     for b in bad[:5]:
@@ -933,7 +944,9 @@ def run(chk: Check):
                            "observed_calls": r.get("calls"), "outcome_class": outcome_of[b["id"]],
                            "model": model_answer(chk, c, r)})
     chk.note(f"corpus cases: {n_corpus}; generated: {len(cases) - n_corpus}")
+    t3 = _time.time()
     checks_correspondence(chk)
+    timing["request_checks_correspondence"] = round(_time.time() - t3, 1)
 
 
 def replay(chk: Check, payload: dict) -> int:
